@@ -250,7 +250,7 @@ func (vc *VC) zeroOfSort(s string) string {
 	case s == "Int":
 		return "0"
 	case s == "Str":
-		return "str.empty"
+		return "gs.empty"
 	case strings.HasPrefix(s, "(_ BitVec "):
 		var n int
 		fmt.Sscanf(s, "(_ BitVec %d)", &n)
